@@ -99,7 +99,7 @@ func (r *replayer) binFor(pkgDir string) (string, error) {
 	bin := filepath.Join(r.scratch, strings.ReplaceAll(pkgDir, "/", "_")+".test")
 	ctx, cancel := context.WithTimeout(context.Background(), 10*time.Minute)
 	defer cancel()
-	cmd := exec.CommandContext(ctx, "go", "test", "-tags", "verif", "-vet=off", "-c", "-o", bin, "-overlay", ovFile, "./"+pkgDir)
+	cmd := exec.CommandContext(ctx, "go", "test", "-tags", "verif,fast_test", "-vet=off", "-c", "-o", bin, "-overlay", ovFile, "./"+pkgDir)
 	cmd.Dir = r.cfg.Repo
 	cmd.Env = append(os.Environ(), "GOFLAGS=-mod=mod", "GOPROXY=off", "GOSUMDB=off", "GOTOOLCHAIN=local")
 	out, err := cmd.CombinedOutput()
@@ -174,7 +174,7 @@ func (r *replayer) run(pkgDir, entry string, script []byte, logPath string, time
 	defer cancel()
 	cmd := exec.CommandContext(ctx, bin, "-test.run", "^TestZZReplay$", "-test.count=1", "-test.v", "-test.timeout", (timeout - 2*time.Second).String())
 	cmd.Dir = filepath.Join(r.cfg.Repo, pkgDir)
-	cmd.Env = append(os.Environ(), "ZZVERIF_SCRIPT="+sf, "ZZVERIF_ENTRY="+entry, "ZZVERIF_LOG="+logPath, "VERIF_TIER="+r.cfg.Tier)
+	cmd.Env = append(os.Environ(), "ZZVERIF_SCRIPT="+sf, "ZZVERIF_ENTRY="+entry, "ZZVERIF_LOG="+logPath, "VERIF_TIER="+r.cfg.Tier, "PAYMENT_RETRY_TIME=2")
 	out, err := cmd.CombinedOutput()
 	if ctx.Err() != nil {
 		return string(out) + "\nZZVERIF-TIMEOUT", nil
@@ -194,12 +194,20 @@ func (r *replayer) replay(e entryInfo, ob *obligation) (dir string, reproduced b
 	_ = meta
 	mb, _ := json.MarshalIndent(meta, "", " ")
 	os.WriteFile(filepath.Join(dir, "meta.json"), mb, 0o644)
-	out, err := r.run(e.PkgDir, e.Name, script, filepath.Join(dir, "native.log"), 60*time.Second)
-	os.WriteFile(filepath.Join(dir, "native_output.txt"), []byte(out), 0o644)
-	if err != nil {
-		return dir, false, out
+	var out string
+	var err error
+	// native runs with select/goroutines depend on the Go scheduler: give a witness three tries
+	for try := 0; try < 3; try++ {
+		out, err = r.run(e.PkgDir, e.Name, script, filepath.Join(dir, "native.log"), 60*time.Second)
+		os.WriteFile(filepath.Join(dir, "native_output.txt"), []byte(out), 0o644)
+		if err != nil {
+			return dir, false, out
+		}
+		if reproducedIn(out, ob.Label) {
+			return dir, true, out
+		}
 	}
-	return dir, reproducedIn(out, ob.Label), out
+	return dir, false, out
 }
 
 func reproducedIn(out, label string) bool {
